@@ -490,7 +490,7 @@ func checkRehydration(p *Prog, c *Closures, r *Result, rule string) {
 		exploreAll(p, c, []exploreJob{{fn, Valuation{}}}, EffSet{}, r, func(j exploreJob) Listener {
 			return &effListener{p: p, r: r, root: j.root, val: j.val,
 				onEvent: func(l *effListener, x *Explorer, st *State, ev *Event) {
-					if ev.Kind == EvAccess && ev.Write && ev.Struct == n && len(st.frames) == 1 {
+					if ev.Kind == EvAccess && ev.Write && ev.Struct == n && (len(st.frames) == 1 || decoderOf(st.top().fn) == fn) {
 						if b, ok := fbits[ev.Field]; ok {
 							st.User |= b
 						}
